@@ -1,2 +1,232 @@
--- stub: replaced by the manifest engine driver
-def main : IO Unit := pure ()
+/-
+Line-protocol driver for the manifest engine (C15).
+Reply format: `<model>\t<spec>`; spec patterns: `*` anything, `a|b` alternatives, `pre*` prefix.
+
+ops
+  open thr=<n> sync=<0|1>          fresh directory + manager (rewrite threshold, SetSync)
+  edit <kind> <fields>             LogEdit      → `ok <fs-op trace>`
+  batch <kind> <fields> | …        LogEdits     → `ok <fs-op trace>`
+  rtrunc g idx term seg off        LogRaftTruncate → `ok <trace>` | `noop` | `err`
+  rewrite                          Rewrite()    → `ok <trace>`
+  dump                             canonical in-memory state
+  reload db|raw                    close, (Verify,) Open → canonical state; spec = in-memory state before
+  crashpoints db|raw               recover every image "crash before file op k" → `ok|bad js=…`; spec `ok*`
+  torn db|raw                      recover every image "crash inside an append" → same
+-/
+import Driver.Lib
+import NoKVModel.Base.Cfg
+import NoKVModel.Manifest.Disk
+
+open NoKV NoKV.Manifest Driver
+
+structure St where
+  cfg : MCfg := MCfg.good
+  thr : Nat := 0
+  sync : Bool := true
+  run : Run := {}
+
+def b01 (b : Bool) : String := if b then "1" else "0"
+
+def fileStr (m : FileMeta) : String :=
+  s!"{m.level}:{m.id}:{m.size}:{m.smallest.toHex}:{m.largest.toHex}:{m.created}:{m.valueSize}:{b01 m.ingest}"
+
+def vlogStr (m : VlogMeta) : String := s!"{m.bucket}:{m.fid}:{m.offset}:{b01 m.valid}"
+
+def raftStr (p : RaftPtr) : String :=
+  s!"{p.group}:{p.segment}:{p.offset}:{p.appliedIndex}:{p.appliedTerm}:{p.committed}:{p.snapIndex}:{p.snapTerm}:{p.truncIndex}:{p.truncTerm}:{p.segIndex}:{p.truncOffset}"
+
+def peersStr (ps : List (Nat × Nat)) : String :=
+  if ps.isEmpty then "-" else ",".intercalate (ps.map fun p => s!"{p.1}.{p.2}")
+
+def regionStr (m : RegionMeta) : String :=
+  s!"{m.id}:{m.start.toHex}:{m.end_.toHex}:{m.ver}:{m.conf}:{m.state}:{peersStr m.peers}"
+
+def dumpStr (v0 : Version) : String :=
+  let v := canon v0
+  "F[" ++ ";".intercalate (v.files.map fileStr) ++ "] L[" ++ s!"{v.logSeg}:{v.logOff}" ++
+  "] V[" ++ ";".intercalate (v.vlogs.map fun p => vlogStr p.2) ++
+  "] H[" ++ ";".intercalate (v.heads.map fun p => vlogStr p.2) ++
+  "] R[" ++ ";".intercalate (v.rafts.map fun p => raftStr p.2) ++
+  "] G[" ++ ";".intercalate (v.regions.map fun p => regionStr p.2) ++ "]"
+
+/-- the dump travels as one token: spaces → `_` -/
+def dumpTok (v : Version) : String := (dumpStr v).replace " " "_"
+
+def parseBool? (s : String) : Option Bool :=
+  if s == "1" then some true else if s == "0" then some false else none
+
+def parseFile? (s : String) : Option FileMeta :=
+  match s.splitOn ":" with
+  | [l, i, sz, a, b, cr, vs, ing] => do
+    pure ⟨← natOf? l, ← natOf? i, ← natOf? sz, ← bytesOf? a, ← bytesOf? b, ← natOf? cr, ← natOf? vs, ← parseBool? ing⟩
+  | _ => none
+
+def parseVlog? (s : String) : Option (Option VlogMeta) :=
+  if s == "nil" then some none else
+  match s.splitOn ":" with
+  | [b, f, o, v] => do pure (some ⟨← natOf? b, ← natOf? f, ← natOf? o, ← parseBool? v⟩)
+  | _ => none
+
+def parseRaft? (s : String) : Option (Option RaftPtr) :=
+  if s == "nil" then some none else
+  match (s.splitOn ":").mapM natOf? with
+  | some [a, b, c, d, e, f, g, h, i, j, k, l] => some (some ⟨a, b, c, d, e, f, g, h, i, j, k, l⟩)
+  | _ => none
+
+def parsePeers? (s : String) : Option (List (Nat × Nat)) :=
+  if s == "-" then some [] else
+  (s.splitOn ",").mapM fun p =>
+    match p.splitOn "." with
+    | [a, b] => do pure (← natOf? a, ← natOf? b)
+    | _ => none
+
+def parseRegion? (s : String) : Option RegionMeta :=
+  match s.splitOn ":" with
+  | [i, a, b, v, c, st, ps] => do
+    pure ⟨← natOf? i, ← bytesOf? a, ← bytesOf? b, ← natOf? v, ← natOf? c, ← natOf? st, ← parsePeers? ps⟩
+  | _ => none
+
+def parseEdit? : List String → Option Edit
+  | ["add", f] => do pure (.addFile (← parseFile? f))
+  | ["del", f] => do pure (.delFile (← parseFile? f))
+  | ["lp", s] =>
+    match s.splitOn ":" with
+    | [a, b] => do pure (.logPtr (← natOf? a) (← natOf? b))
+    | _ => none
+  | ["vh", m] => do pure (.vlogHead (← parseVlog? m))
+  | ["vd", m] => do pure (.vlogDel (← parseVlog? m))
+  | ["vu", m] => do pure (.vlogUpd (← parseVlog? m))
+  | ["rp", p] => do pure (.raft (← parseRaft? p))
+  | ["rg", "nil"] => some (.region none)
+  | ["rg", m] => do pure (.region (some (← parseRegion? m, false)))
+  | ["rgdel", i] => do pure (.region (some ({ RegionMeta.zero with id := (← natOf? i) }, true)))
+  | _ => none
+
+def splitBar : List String → List (List String)
+  | [] => [[]]
+  | t :: ts =>
+    if t == "|" then [] :: splitBar ts
+    else match splitBar ts with
+      | [] => [[t]]
+      | g :: gs => (t :: g) :: gs
+
+def stepStr : Step → String
+  | .stat n => s!"st:M{n}"
+  | .create n => s!"of:M{n}"
+  | .append n _ => s!"fw:M{n}"
+  | .setRaw n _ => s!"fw:M{n}"
+  | .sync n => s!"fs:M{n}"
+  | .close n => s!"fc:M{n}"
+  | .openrw n => s!"of:M{n}"
+  | .writeTmp _ => "wf:T"
+  | .renameTmp => "rn:T>C"
+  | .writeCur _ => "wf:C"
+  | .remove n => s!"rm:M{n}"
+
+def traceStr (ss : List Step) : String :=
+  if ss.isEmpty then "-" else ",".intercalate (ss.map stepStr)
+
+def setCfg (c : MCfg) (kv : String) : Option MCfg :=
+  match kv.splitOn "=" with
+  | [k, v] => do
+    let b ← boolOfString? v
+    match k with
+    | "mf.snapInvalidAsUpdate" => pure { c with snapInvalidAsUpdate := b }
+    | "mf.vlogDelZeroesOffset" => pure { c with vlogDelZeroesOffset := b }
+    | "mf.headForcesValid" => pure { c with headForcesValid := b }
+    | "mf.delFileFirstOnly" => pure { c with delFileFirstOnly := b }
+    | "mf.nilRaftRoundtrip" => pure { c with nilRaftRoundtrip := b }
+    | "mf.nilRegionRoundtrip" => pure { c with nilRegionRoundtrip := b }
+    | "mf.currentAfterSnapshot" => pure { c with currentAfterSnapshot := b }
+    | "mf.removeOldAfterCurrent" => pure { c with removeOldAfterCurrent := b }
+    | "mf.currentViaRename" => pure { c with currentViaRename := b }
+    | "mf.syncOnAppend" => pure { c with syncOnAppend := b }
+    | "mf.rewriteAtGE" => pure { c with rewriteAtGE := b }
+    | "mf.verifyTruncPartLen" => pure { c with verifyTruncPartLen := b }
+    | "mf.verifyTruncLenOnly" => pure { c with verifyTruncLenOnly := b }
+    | "mf.verifyTruncPartPayload" => pure { c with verifyTruncPartPayload := b }
+    | "mf.openVerifies" => pure { c with openVerifies := b }
+    | _ => none
+  | _ => none
+
+/-- in-memory states after every prefix of the edits (what a manager that never reloads holds) -/
+def prefixDumps (c : MCfg) (es : List Edit) : List String :=
+  let rec go (v : Version) : List Edit → List String
+    | [] => [dumpTok v]
+    | e :: rest => dumpTok v :: go (apply c v e) rest
+  go Version.empty es
+
+def findFrom (ds : List String) (s : String) (lo hi : Nat) : Option Nat :=
+  (List.range (hi - lo)).findSome? fun i => if ds[lo + i]? == some s then some (lo + i) else none
+
+def matchState (ds : List String) (acked : Nat) (r : Option Version) : String :=
+  match r with
+  | none => "err"
+  | some v =>
+    let s := dumpTok v
+    match findFrom ds s acked ds.length with
+    | some j => toString j
+    | none =>
+      match findFrom ds s 0 acked with
+      | some j => s!"lost{j}"
+      | none => "none"
+
+def crashLine (st : St) (mode : String) (imgs : List Image) : String :=
+  let ds := prefixDumps st.cfg st.run.edits
+  let rec_ := if mode == "raw" then recoverOpen st.cfg else recoverDB st.cfg
+  let rs := imgs.map fun im => matchState ds im.acked (rec_ im.disk)
+  let good := rs.all fun r => r.toNat?.isSome
+  (if good then "ok" else "bad") ++ s!" n={rs.length} js=" ++ ",".intercalate rs
+
+def doCall (st : St) (cl : Call) : St × String :=
+  let (ss, _) := callSteps st.cfg st.thr st.sync st.run.mgr st.run.disk cl
+  let run' := Run.call st.cfg st.thr st.sync st.run cl
+  ({ st with run := run' }, "ok " ++ traceStr ss ++ "\t*")
+
+def step (st : St) (toks : List String) : St × String :=
+  match toks with
+  | "cfg" :: kvs =>
+    match kvs.foldlM setCfg st.cfg with
+    | some c => ({ st with cfg := c }, "ok")
+    | none => (st, "bad-cfg")
+  | ["open", t, s] =>
+    match kv? [t] "thr", kv? [s] "sync" with
+    | some t, some s =>
+      match natOf? t, parseBool? s with
+      | some t, some s => ({ st with thr := t, sync := s, run := {} }, "ok\t*")
+      | _, _ => (st, "bad-op")
+    | _, _ => (st, "bad-op")
+  | "edit" :: rest =>
+    match parseEdit? rest with
+    | some e => doCall st (.log [e])
+    | none => (st, "bad-op")
+  | "batch" :: rest =>
+    match (splitBar rest).mapM parseEdit? with
+    | some (e :: es) => doCall st (.log (e :: es))
+    | _ => (st, "bad-op")
+  | ["rtrunc", g, i, t, s, o] =>
+    match natOf? g, natOf? i, natOf? t, natOf? s, natOf? o with
+    | some g, some i, some t, some s, some o =>
+      if g = 0 then (st, "err\t*")
+      else match raftTruncateEdit st.run.mgr.v g i t s o with
+        | none => (st, "noop\t*")
+        | some e => doCall st (.log [e])
+    | _, _, _, _, _ => (st, "bad-op")
+  | ["rewrite"] => doCall st .rewrite
+  | ["dump"] => (st, dumpTok st.run.mgr.v ++ "\t*")
+  | ["reload", mode] =>
+    let before := dumpTok st.run.mgr.v
+    let r := if mode == "raw" then recoverOpen st.cfg st.run.disk else recoverDB st.cfg st.run.disk
+    match r with
+    | none => (st, "err\t" ++ before)
+    | some v =>
+      let cur := st.run.disk.current.getD 1
+      let run' := { st.run with mgr := { v := v, cur := cur, next := cur + 1 } }
+      ({ st with run := run' }, dumpTok v ++ "\t" ++ before)
+  | ["crashpoints", mode] =>
+    let r := st.run
+    (st, crashLine st mode (r.images ++ [⟨r.disk, r.edits.length, r.edits.length⟩]) ++ "\tok*")
+  | ["torn", mode] => (st, crashLine st mode st.run.torn ++ "\tok*")
+  | _ => (st, "bad-op")
+
+def main : IO Unit := Driver.loop ({} : St) step
